@@ -415,13 +415,29 @@ func runStaticOrder(c *Ctx) {
 					if call, ok := in.(*ssa.Call); ok && sortCall == nil {
 						if h := staticCallee(call); h != nil && c.P.isModuleFn(h) && len(h.Blocks) > 0 {
 							for k, a := range call.Call.Args {
-								if k >= len(h.Params) || !strings.HasSuffix(canon(a), ".StopTimes)") {
+								if k >= len(h.Params) {
+									continue
+								}
+								viaTrip := typeName(a.Type()) == "gtfs.ScheduledTrip" // handed the trip itself: sorts its StopTimes
+								if !viaTrip && !strings.HasSuffix(canon(a), ".StopTimes)") {
 									continue
 								}
 								for _, hb := range h.Blocks {
 									for _, hin := range hb.Instrs {
 										sc, isCall := hin.(*ssa.Call)
-										if !isCall || calleeName(sc) != "sort.Slice" || !isParamOrItsCell(sortTarget(sc), h.Params[k]) {
+										if !isCall || calleeName(sc) != "sort.Slice" {
+											continue
+										}
+										if viaTrip {
+											ld, isLd := sortTarget(sc).(*ssa.UnOp)
+											if !isLd {
+												continue
+											}
+											fa, isFA := ld.X.(*ssa.FieldAddr)
+											if !isFA || fieldName(fa.X.Type(), fa.Field) != "StopTimes" || !isParamOrItsCell(fa.X, h.Params[k]) {
+												continue
+											}
+										} else if !isParamOrItsCell(sortTarget(sc), h.Params[k]) {
 											continue
 										}
 										always := true
@@ -586,6 +602,7 @@ func runStaticOrder(c *Ctx) {
 // on every trip around the loop either both are unchanged, or p = m[k] and kk = k for the same k.
 func runCacheCoherence(c *Ctx) {
 	p := c.P
+	runCacheCoherenceStruct(c)
 	for _, fn := range staticParseFns(c) {
 		for _, l := range naturalLoops(fn) {
 			var phis []*ssa.Phi
@@ -820,8 +837,28 @@ func runRejectInert(c *Ctx) {
 							if strings.Contains(name, "/csv.") || strings.HasPrefix(name, "log.") || strings.HasPrefix(name, "fmt.") || strings.Contains(name, "/warnings.") {
 								continue
 							}
+							// a helper whose boolean answer decides the rejection: what counts is what it writes on the
+							// paths on which it gives the answer this path took
+							answer, known := false, false
+							if blk := x.Block(); len(blk.Instrs) > 0 {
+								if iff, isIf := blk.Instrs[len(blk.Instrs)-1].(*ssa.If); isIf && iff.Cond == ssa.Value(x) {
+									for i, pb := range path {
+										if pb != blk || blk.Succs[0] == blk.Succs[1] {
+											continue
+										}
+										if i+1 < len(path) {
+											answer, known = path[i+1] == blk.Succs[0], true
+										} else if blk.Succs[0] == l.Header || blk.Succs[1] == l.Header {
+											answer, known = blk.Succs[0] == l.Header, true // the branch itself goes back to the loop head
+										}
+									}
+								}
+							}
 							for _, cal := range p.Callees(x) {
 								if !p.fnIndex[cal] {
+									continue
+								}
+								if known && inertWhenAnswering(p, e, cal, answer) {
 									continue
 								}
 								// a helper that writes only through its pointer parameters, handed the address of a variable of
@@ -1515,4 +1552,178 @@ func fnPkgPathPrefix(f *ssa.Function) string {
 		return pp
 	}
 	return ""
+}
+
+// inertWhenAnswering: on every path of f that ends in a return whose last result is (or may be) `answer`, nothing is
+// written: no store outside f's own variables, no map update, no call of a function that writes. f must be loop-free.
+func inertWhenAnswering(p *Program, e *nilEngine, f *ssa.Function, answer bool) bool {
+	if len(f.Blocks) == 0 || len(naturalLoops(f)) > 0 || f.Signature.Results().Len() == 0 {
+		return false
+	}
+	inert := true
+	var rec func(b *ssa.BasicBlock, dirty bool, depth int)
+	rec = func(b *ssa.BasicBlock, dirty bool, depth int) {
+		if !inert || depth > 64 {
+			inert = inert && depth <= 64
+			return
+		}
+		for _, in := range b.Instrs {
+			switch x := in.(type) {
+			case *ssa.Store:
+				if _, isAl := addrRoot(x.Addr).(*ssa.Alloc); !isAl {
+					dirty = true
+				}
+			case *ssa.MapUpdate:
+				dirty = true
+			case *ssa.Call:
+				if _, isB := x.Call.Value.(*ssa.Builtin); isB {
+					continue
+				}
+				name := calleeName(x)
+				if strings.HasPrefix(name, "log.") || strings.HasPrefix(name, "fmt.") {
+					continue
+				}
+				cs := p.Callees(x)
+				if len(cs) == 0 {
+					dirty = true
+				}
+				for _, cal := range cs {
+					if !p.fnIndex[cal] {
+						continue
+					}
+					for k := range e.mods[cal] {
+						if k != "local" {
+							dirty = true
+						}
+					}
+				}
+			case *ssa.Go, *ssa.Defer, *ssa.Send:
+				dirty = true
+			case *ssa.Return:
+				rv := x.Results[len(x.Results)-1]
+				if k, isC := rv.(*ssa.Const); isC {
+					if bv, isB := constBool(k); isB && bv != answer {
+						return // this path gives the other answer
+					}
+				}
+				if dirty {
+					inert = false
+				}
+				return
+			}
+		}
+		for _, s := range b.Succs {
+			rec(s, dirty, depth+1)
+		}
+	}
+	rec(f.Blocks[0], false, 0)
+	return inert
+}
+
+// runCacheCoherenceStruct: the same cache kept in a small struct (a cursor with a pointer field and a key field) that a
+// method updates: on every path through the method either neither field is stored, or the pointer is the lookup
+// m[k] and the key field receives that same k.
+func runCacheCoherenceStruct(c *Ctx) {
+	p := c.P
+	seenFn := map[*ssa.Function]bool{}
+	for _, root := range staticParseFns(c) {
+		for _, g := range c.regionOf(root) {
+			if seenFn[g] || len(g.Blocks) == 0 || len(g.Params) == 0 || len(naturalLoops(g)) > 0 {
+				continue
+			}
+			seenFn[g] = true
+			for _, prm := range g.Params {
+				pt, isPtr := prm.Type().Underlying().(*types.Pointer)
+				if !isPtr {
+					continue
+				}
+				if _, isSt := pt.Elem().Underlying().(*types.Struct); !isSt {
+					continue
+				}
+				// stores into fields of *prm
+				type fst struct {
+					st    *ssa.Store
+					field string
+				}
+				var stores []fst
+				var ptrField string
+				var keyVal ssa.Value
+				for _, blk := range g.Blocks {
+					for _, in := range blk.Instrs {
+						st, ok := in.(*ssa.Store)
+						if !ok {
+							continue
+						}
+						fa, ok := st.Addr.(*ssa.FieldAddr)
+						if !ok || fa.X != ssa.Value(prm) {
+							continue
+						}
+						fn := fieldName(fa.X.Type(), fa.Field)
+						stores = append(stores, fst{st, fn})
+						if _, isP := st.Val.Type().Underlying().(*types.Pointer); isP {
+							if lk := lookupOf(st.Val); lk != nil {
+								ptrField, keyVal = fn, lk.Index
+							}
+						}
+					}
+				}
+				if ptrField == "" {
+					continue
+				}
+				keyField := ""
+				for _, fs := range stores {
+					if fs.field != ptrField && fs.st.Val == keyVal {
+						keyField = fs.field
+					}
+				}
+				construct := "cache (" + typeName(prm.Type()) + "." + ptrField + ", " + keyField + ")"
+				if keyField == "" {
+					c.Violated("CACHE", shortName(g), construct, p.pos(g.Pos()), "a looked-up pointer is cached across rows without remembering the key it was looked up under")
+					continue
+				}
+				ok, why, n := true, "", 0
+				var rec func(b *ssa.BasicBlock, set map[string]ssa.Value, depth int)
+				rec = func(b *ssa.BasicBlock, set map[string]ssa.Value, depth int) {
+					if depth > 64 {
+						ok, why = false, "too many blocks on one path"
+						return
+					}
+					cur := map[string]ssa.Value{}
+					for k, v := range set {
+						cur[k] = v
+					}
+					for _, in := range b.Instrs {
+						if st, isSt := in.(*ssa.Store); isSt {
+							for _, fs := range stores {
+								if fs.st == st {
+									cur[fs.field] = st.Val
+								}
+							}
+						}
+						if _, isRet := in.(*ssa.Return); isRet {
+							n++
+							pv, hasP := cur[ptrField]
+							kv, hasK := cur[keyField]
+							switch {
+							case !hasP && !hasK:
+							case hasP && hasK:
+								if lk := lookupOf(pv); lk == nil || lk.Index != kv {
+									ok, why = false, "the cached pointer and the cached key are updated from different keys"
+								}
+							case hasK:
+								ok, why = false, "the cached key ("+keyField+") changes on a path where the cached pointer ("+ptrField+") does not: later rows with that key are attributed to the previous object"
+							default:
+								ok, why = false, "the cached pointer ("+ptrField+") changes on a path where the cached key ("+keyField+") does not"
+							}
+						}
+					}
+					for _, s := range b.Succs {
+						rec(s, cur, depth+1)
+					}
+				}
+				rec(g.Blocks[0], map[string]ssa.Value{}, 0)
+				c.Check(ok && n > 0, "CACHE", shortName(g), construct, p.pos(g.Pos()), fmt.Sprintf("on all %d paths through the method pointer and key are either both kept or both replaced from the same lookup", n), why)
+			}
+		}
+	}
 }
